@@ -213,6 +213,31 @@ def job_isleap():
         ex.call(st, IL, [y], k)
     return ex.execute(h)
 
+def job_allyear():
+    """AllYearDST (real IR): true exactly for zic's perpetual-DST footer form: DST starts on day 0 (n form) at 00:00:00 and ends on J365
+    at 24:00:00 plus the saving (dst - std), i.e. the end of one year's DST is the start of the next year's"""
+    mod = tz.module()
+    ex = symex.Executor(mod, tlimit_ms=120000)
+    AY = build.find_func(mod, r"anonymous namespace\)::AllYearDST\(")
+    def h(ex, st):
+        pz = ex.new_obj(st, 128, "PosixTimeZone")
+        std_off = ex.input("std_offset", 64, -90000, 90000); dst_off = ex.input("dst_offset", 64, -90000, 90000)
+        W = lambda off, n, v: ex.store_raw(st, Ptr(pz.obj, off), n, v)
+        W(32, 8, std_off); W(72, 8, dst_off)
+        f = {}
+        for base, nm in ((80, "start"), (104, "end")):
+            f["fmt_" + nm] = ex.input("fmt_" + nm, 32, 0, 2); f["date_" + nm] = ex.input("date_" + nm, 64, -(1 << 15), (1 << 15) - 1)
+            f["time_" + nm] = ex.input("time_" + nm, 64, -(167 * 3600 + 3599), 167 * 3600 + 3599)
+            W(base, 4, f["fmt_" + nm]); W(base + 8, 8, f["date_" + nm]); W(base + 16, 8, f["time_" + nm])
+        # PosixTransition::DateFormat { J = 0, N = 1, M = 2 }
+        want = and_(eq(f["fmt_start"], 1), eq(f["date_start"], 0), eq(f["time_start"], 0), eq(f["fmt_end"], 0), eq(f["date_end"], 365),
+                    eq(f["time_end"], add(86400, sub(dst_off, std_off))))
+        def k(st, rv):
+            ok = rv if (isinstance(rv, bool) or (smt.is_sym(rv) and rv.sort == "B")) else ne(rv, 0)
+            ex.prove(st, smt.iff(ok, want), "AllYearDST(rule) iff the rule is 0/0,J365/(24h + dst - std): DST in force all year")
+        ex.call(st, AY, [pz], k)
+    return ex.execute(h)
+
 def job_periodicity():
     """rule instants repeat with the 400-year cycle: SEC(Y+400,1,1) = SEC(Y,1,1) + 146097*86400, same leapness, same weekday"""
     ex = symex.Executor(tz.module(), tlimit_ms=120000)
